@@ -1741,3 +1741,275 @@ func E11FitStroke(c *core.Ctx, r *core.Report) {
 		}
 	}
 }
+
+// E11SVGTransformTable: the transform functions of the SVG importer follow the SVG specification's table.
+func E11SVGTransformTable(c *core.Ctx, r *core.Report) {
+	r.Rule("E11.svg-transform", "svgParser.parseTransform, evaluated symbolically per transform function and argument count (the argument list as symbols a0…an, conditions on len(d) and on the function name decided, appends to the list followed): matrix(a0…a5) multiplies by [[a0 a2 a4][a1 a3 a5]]; translate(a0) = Translate(a0, 0) and translate(a0,a1) = Translate(a0,a1); scale(a0) = Scale(a0,a0) and scale(a0,a1) = Scale(a0,a1); rotate(a0) = Rotate(a0) and rotate(a0,a1,a2) = RotateAbout(a0,a1,a2) (SVG 1.1 §7.6); any other argument count applies no transformation and records an error")
+	p := c.MustPkg("")
+	info := p.TypesInfo
+	fd := core.MustFuncDecl(p, "svgParser.parseTransform")
+	r.Func("canvas.svgParser.parseTransform")
+	// the switch over the function name and the argument list variable
+	var sw *ast.SwitchStmt
+	ast.Inspect(fd.Body, func(n ast.Node) bool {
+		if s, ok := n.(*ast.SwitchStmt); ok && sw == nil && s.Tag != nil {
+			if t := info.TypeOf(s.Tag); t != nil {
+				if b, ok := t.Underlying().(*types.Basic); ok && b.Kind() == types.String {
+					sw = s
+				}
+			}
+		}
+		return true
+	})
+	if sw == nil {
+		panic(core.Infra("E11.svg-transform: switch over the transform function not found"))
+	}
+	funObj := core.ObjOf(info, core.Unparen(sw.Tag).(*ast.Ident))
+	// d: the []float64 local indexed in the cases
+	var dObj types.Object
+	ast.Inspect(sw, func(n ast.Node) bool {
+		if ie, ok := n.(*ast.IndexExpr); ok && dObj == nil {
+			if id, ok := core.Unparen(ie.X).(*ast.Ident); ok {
+				if sl, ok := info.TypeOf(id).Underlying().(*types.Slice); ok {
+					if b, ok := sl.Elem().Underlying().(*types.Basic); ok && b.Kind() == types.Float64 {
+						dObj = core.ObjOf(info, id)
+					}
+				}
+			}
+		}
+		return true
+	})
+	if dObj == nil {
+		panic(core.Infra("E11.svg-transform: argument list variable not found"))
+	}
+	type result struct {
+		calls []string
+		err   bool
+		bad   string
+	}
+	var term func(e ast.Expr, d []string) string
+	term = func(e ast.Expr, d []string) string {
+		e = core.Unparen(e)
+		if tv, ok := info.Types[e]; ok && tv.Value != nil {
+			return tv.Value.String()
+		}
+		switch x := e.(type) {
+		case *ast.IndexExpr:
+			if id, ok := core.Unparen(x.X).(*ast.Ident); ok && core.ObjOf(info, id) == dObj {
+				if k, ok := core.ConstInt(info, x.Index); ok && int(k) < len(d) {
+					return d[k]
+				}
+				return "out-of-range"
+			}
+		case *ast.UnaryExpr:
+			if x.Op == token.SUB {
+				return "-" + term(x.X, d)
+			}
+		case *ast.CompositeLit:
+			var rows []string
+			for _, el := range x.Elts {
+				rows = append(rows, term(el, d))
+			}
+			return "[" + strings.Join(rows, " ") + "]"
+		}
+		return "?" + types.ExprString(e)
+	}
+	var evalCond func(e ast.Expr, fun string, d []string) int
+	evalCond = func(e ast.Expr, fun string, d []string) int {
+		e = core.Unparen(e)
+		be, ok := e.(*ast.BinaryExpr)
+		if !ok {
+			return -1
+		}
+		switch be.Op {
+		case token.LAND:
+			a, b := evalCond(be.X, fun, d), evalCond(be.Y, fun, d)
+			if a == 0 || b == 0 {
+				return 0
+			}
+			if a == 1 && b == 1 {
+				return 1
+			}
+			return -1
+		case token.LOR:
+			a, b := evalCond(be.X, fun, d), evalCond(be.Y, fun, d)
+			if a == 1 || b == 1 {
+				return 1
+			}
+			if a == 0 && b == 0 {
+				return 0
+			}
+			return -1
+		}
+		// len(d) <op> const
+		val := func(x ast.Expr) (int64, bool) {
+			x = core.Unparen(x)
+			if v, ok := core.ConstInt(info, x); ok {
+				return v, true
+			}
+			if call, ok := x.(*ast.CallExpr); ok && len(call.Args) == 1 {
+				if id, ok := call.Fun.(*ast.Ident); ok && id.Name == "len" {
+					if a, ok := core.Unparen(call.Args[0]).(*ast.Ident); ok && core.ObjOf(info, a) == dObj {
+						return int64(len(d)), true
+					}
+				}
+			}
+			return 0, false
+		}
+		if a, ok1 := val(be.X); ok1 {
+			if b, ok2 := val(be.Y); ok2 {
+				var res bool
+				switch be.Op {
+				case token.EQL:
+					res = a == b
+				case token.NEQ:
+					res = a != b
+				case token.LSS:
+					res = a < b
+				case token.GTR:
+					res = a > b
+				case token.LEQ:
+					res = a <= b
+				case token.GEQ:
+					res = a >= b
+				default:
+					return -1
+				}
+				if res {
+					return 1
+				}
+				return 0
+			}
+		}
+		// fun == "name"
+		if id, ok := core.Unparen(be.X).(*ast.Ident); ok && core.ObjOf(info, id) == funObj {
+			if tv, ok := info.Types[be.Y]; ok && tv.Value != nil && (be.Op == token.EQL || be.Op == token.NEQ) {
+				eq := strings.Trim(tv.Value.ExactString(), "\"") == fun
+				if (be.Op == token.EQL) == eq {
+					return 1
+				}
+				return 0
+			}
+		}
+		return -1
+	}
+	var run func(list []ast.Stmt, fun string, d []string, res *result) []string
+	run = func(list []ast.Stmt, fun string, d []string, res *result) []string {
+		for _, st := range list {
+			switch x := st.(type) {
+			case *ast.BlockStmt:
+				d = run(x.List, fun, d, res)
+			case *ast.IfStmt:
+				switch evalCond(x.Cond, fun, d) {
+				case 1:
+					d = run(x.Body.List, fun, d, res)
+				case 0:
+					if x.Else != nil {
+						d = run([]ast.Stmt{x.Else}, fun, d, res)
+					}
+				default:
+					res.bad = "condition `" + types.ExprString(x.Cond) + "` cannot be decided"
+				}
+			case *ast.AssignStmt:
+				if len(x.Lhs) != 1 || len(x.Rhs) != 1 {
+					res.bad = "unsupported assignment"
+					continue
+				}
+				if sel, ok := x.Lhs[0].(*ast.SelectorExpr); ok && sel.Sel.Name == "err" {
+					res.err = true
+					continue
+				}
+				lid, ok := x.Lhs[0].(*ast.Ident)
+				if !ok {
+					res.bad = "unsupported assignment"
+					continue
+				}
+				if core.ObjOf(info, lid) == dObj {
+					call, ok := core.Unparen(x.Rhs[0]).(*ast.CallExpr)
+					if id, isId := call.Fun.(*ast.Ident); ok && isId && id.Name == "append" && len(call.Args) >= 1 {
+						for _, a := range call.Args[1:] {
+							d = append(append([]string{}, d...), term(a, d))
+						}
+						continue
+					}
+					res.bad = "the argument list is rewritten in a way the rule does not follow"
+					continue
+				}
+				// m = m.Method(args)
+				if call, ok := core.Unparen(x.Rhs[0]).(*ast.CallExpr); ok {
+					if f := core.CalleeOf(info, call); f != nil && strings.HasPrefix(core.QualifiedCallee(f), core.Module+".Matrix.") {
+						var args []string
+						for _, a := range call.Args {
+							args = append(args, term(a, d))
+						}
+						res.calls = append(res.calls, f.Name()+"("+strings.Join(args, ",")+")")
+						continue
+					}
+				}
+				res.bad = "unsupported statement `" + c.Src(x) + "`"
+			case *ast.EmptyStmt:
+			default:
+				res.bad = "unsupported statement"
+			}
+		}
+		return d
+	}
+	spec := map[string]map[int]string{
+		"matrix":    {6: "Mul([[a0 a2 a4] [a1 a3 a5]])"},
+		"translate": {1: "Translate(a0,0)", 2: "Translate(a0,a1)"},
+		"scale":     {1: "Scale(a0,a0)", 2: "Scale(a0,a1)"},
+		"rotate":    {1: "Rotate(a0)", 3: "RotateAbout(a0,a1,a2)"},
+	}
+	n := 0
+	for _, cs := range sw.Body.List {
+		cc := cs.(*ast.CaseClause)
+		for _, ke := range cc.List {
+			tv, ok := info.Types[ke]
+			if !ok || tv.Value == nil {
+				continue
+			}
+			fun := strings.Trim(tv.Value.ExactString(), "\"")
+			table, known := spec[fun]
+			if !known {
+				continue // skewX/skewY are not implemented (TODO in the source): nothing to compare
+			}
+			max := 0
+			for k := range table {
+				if k > max {
+					max = k
+				}
+			}
+			for arity := 0; arity <= max+1; arity++ {
+				d := make([]string, arity)
+				for k := range d {
+					d[k] = fmt.Sprintf("a%d", k)
+				}
+				res := &result{}
+				run(cc.Body, fun, d, res)
+				n++
+				key := fmt.Sprintf("canvas.svgParser.parseTransform|%s with %d arguments", fun, arity)
+				want, valid := table[arity]
+				got := strings.Join(res.calls, ";")
+				switch {
+				case res.bad != "":
+					r.Fail("E11.svg-transform", key, c.Pos(cc.Pos()), "the case cannot be evaluated: "+res.bad)
+				case valid && (got != want || res.err):
+					r.Fail("E11.svg-transform", key, c.Pos(cc.Pos()), fmt.Sprintf("%s(%s) applies %s (error recorded: %v), the SVG specification says %s", fun, strings.Join(d, ","), orNone(got), res.err, want))
+				case !valid && (got != "" || !res.err):
+					r.Fail("E11.svg-transform", key, c.Pos(cc.Pos()), fmt.Sprintf("%s with %d arguments is not valid SVG but applies %s (error recorded: %v)", fun, arity, orNone(got), res.err))
+				default:
+					r.OK("E11.svg-transform", key, c.Pos(cc.Pos()), want)
+				}
+			}
+		}
+	}
+	r.Count("E11.svg-transform-cases", n)
+	r.Floor("E11.svg-transform-cases", 15)
+}
+
+func orNone(s string) string {
+	if s == "" {
+		return "nothing"
+	}
+	return s
+}
